@@ -7,9 +7,10 @@ def summary_of(p):
     return json.loads([l for l in p.stdout.splitlines() if l.startswith("@@SUMMARY ")][-1][10:])
 
 
-def run_decoder_traces(ctx, families, n, kinds, what, prefix="dec", shards=16):
+def run_decoder_traces(ctx, families, n, kinds, what, prefix="dec", shards=None):
     """Drive the real decoder on the families, validate with TV_Decoder, register
     violations for diagnostics whose kind is in `kinds`.  Returns coverage bits."""
+    shards = shards or (16 if ctx.tier == "quick" else 48)
     p, _ = ctx.run_harness(["drive-dec", "-out", ctx.tmp, "-prefix", prefix, "-shards", str(shards),
                             "-families", ",".join(families), "-n", str(n)], timeout=3000)
     summ = summary_of(p)
